@@ -23,7 +23,7 @@ open Util FrameRead RespSpec
         with skip-metadata; skip: + the specification's expectation
   reuse <api> <init> <fv> D <n> <go type>*n <logical response> <wire>   typed destinations (Go types in the token
         syntax of Driver/C12.lean) created ONCE (init Z: zero values, D: RowsReuse.dirtyOf) and REUSED for every row
-        through scan | scanner; the answer lists the destinations' values after every row. Model: Model/RowsReuse.lean;
+        through scan | scanner | mapscan (a new map per row holding pointers to the same variables); the answer lists the destinations' values after every row. Model: Model/RowsReuse.lean;
         specification: every cell decoded on its own into a fresh zero value (C04_rows_independent) — must agree
   reusex ...   the same, model only (the excluded class of C04_rows_independent_partial, wrong destination counts,
         rows that do not fit the metadata) -/
@@ -477,6 +477,16 @@ def scanLoopT (p : Nat) (tys : List GoTy) : Nat → Iter → List GoVal → List
     | .unmodelled => some (acc ++ ["unmodelled"], it)
 
 open Rows RowsReuse Marshal in
+def mapScanLoopT (p : Nat) (tys : List GoTy) : Nat → Iter → List GoVal → List String → Option (List String × Iter)
+  | 0, it, _, acc => some (acc, it)
+  | fuel + 1, it, vals, acc =>
+    match mapScanT p it tys vals with
+    | .row it' vals' => mapScanLoopT p tys fuel it' vals' (acc ++ [dVals vals'])
+    | .stop it' _ => some (if it'.failed then acc ++ ["!"] else acc, it')
+    | .crash => none
+    | .unmodelled => some (acc ++ ["unmodelled"], it)
+
+open Rows RowsReuse Marshal in
 def scannerLoopT (p : Nat) (tys : List GoTy) : Nat → Scanner → List GoVal → List String → Option (List String × String × Scanner)
   | 0, s, _, acc => some (acc, "done", s)
   | fuel + 1, s, vals, acc =>
@@ -509,6 +519,10 @@ def reuseModel (api init : String) (fv : Nat) (tys : List GoTy) (wire : FrameRea
         match api with
         | "scan" =>
           match scanLoopT fv tys fuel it vals [] with
+          | none => "crash:go"
+          | some (rows, it') => out ++ " rows:[" ++ "|".intercalate rows ++ "] " ++ iterEnd it'
+        | "mapscan" =>
+          match mapScanLoopT fv tys fuel it vals [] with
           | none => "crash:go"
           | some (rows, it') => out ++ " rows:[" ++ "|".intercalate rows ++ "] " ++ iterEnd it'
         | "scanner" =>
@@ -549,7 +563,7 @@ def reuseSpec (api : String) (v : Nat) (r : LResp) (tys : List GoTy) : Option St
       let (l, failed) := freshRows v tys rows
       let shown := if failed then l ++ ["!"] else l
       match api with
-      | "scan" =>
+      | "scan" | "mapscan" =>
         some (out ++ " rows:[" ++ "|".intercalate shown ++ "] " ++
           (if failed then s!"end:1,{l.length},x" else s!"end:0,{rs.length},-"))
       | "scanner" =>
